@@ -134,3 +134,29 @@ Proof. intros H. assert (E : N.lxor a (N.lxor a c) = 0) by (rewrite H; apply N.l
 Lemma land_lxor_distr_l a b c : N.land (N.lxor a b) c = N.lxor (N.land a c) (N.land b c).
 Proof. apply N.bits_inj. intro n. rewrite N.land_spec, !N.lxor_spec, !N.land_spec.
   destruct (N.testbit a n), (N.testbit b n), (N.testbit c n); reflexivity. Qed.
+
+Lemma div8_step n : (8 <= n -> (n - 8 + 7) / 8 + 1 = (n + 7) / 8)%nat.
+Proof. intros H. replace (n + 7)%nat with ((n - 8 + 7) + 1 * 8)%nat by lia. rewrite Nat.div_add by lia. lia. Qed.
+Lemma div8_small n : (1 <= n -> n < 8 -> (n + 7) / 8 = 1)%nat.
+Proof. intros H1 H2. replace (n + 7)%nat with ((n - 1) + 1 * 8)%nat by lia. rewrite Nat.div_add by lia.
+  rewrite Nat.div_small by lia. reflexivity. Qed.
+
+Lemma pack_bits_fuel_length f : forall l, (length l <= f)%nat ->
+  length (pack_bits_fuel f l) = ((length l + 7) / 8)%nat.
+Proof. induction f as [|f IH]; intros l H.
+- destruct l; [reflexivity | cbn in H; lia].
+- destruct l as [|b l]; [reflexivity|].
+  change (pack_bits_fuel (S f) (b :: l)) with
+    (bits_N (firstn 8 ((b :: l) ++ repeat false 7)) :: pack_bits_fuel f (skipn 8 (b :: l))).
+  cbn [length] in H.
+  change (length (?x :: ?t)) with (S (length t)).
+  rewrite IH by (rewrite skipn_length; cbn [length]; lia).
+  rewrite skipn_length. cbn [length].
+  set (n := S (length l)). assert (Hn : (1 <= n)%nat) by (subst n; lia). clearbody n.
+  destruct (Nat.le_gt_cases 8 n) as [G|G].
+  + rewrite <- (div8_step n G). lia.
+  + rewrite (div8_small n Hn G). replace (n - 8)%nat with 0%nat by lia. reflexivity.
+Qed.
+
+Lemma pack_bits_length l : length (pack_bits l) = ((length l + 7) / 8)%nat.
+Proof. apply pack_bits_fuel_length. lia. Qed.
